@@ -285,6 +285,12 @@ func (b *Box) Send(msgType uint8, topic []byte, msg []byte, to ...UniversalID) {
 		}
 	}()
 
+	if msgs != nil {
+		// The topic has started: its senders no longer have it in flight
+		for _, sender := range msgs.senders() {
+			delete(b.totalInFlightTopicsBySender[sender], string(topic))
+		}
+	}
 	delete(b.pendingMessages, string(topic))
 
 	b.lock.Unlock()
